@@ -2356,11 +2356,44 @@ package ucfg
 //@ modifies *
 //@ ensures [typed @C06] err == nil ==> rvType(r) == tTo
 
-//@ func castArr :: opts, v -> arr, err
+// C08: every evaluation of a dynamic value (a reference, a spliced string) happens in a scope level of its own - fresh, empty,
+// chained to the level of the enclosing evaluation. A re-entry is then found along the chain, and evaluating a value a second
+// time after its first evaluation has finished (a look at the value before it is unpacked, a fallback reading) is no cycle.
+// dynVal names what one evaluation of a dynamic value returned (a function of the value while one look at it lasts)
+//@ ghost func dynVal(d *cfgDynamic) value
+//@ func (*cfgDynamic).getValue :: d, opts -> r, err
 //@ props C07
+//@ sweep
+//@ ensures [naming !unproved] err == nil ==> r == dynVal(d)
+
+//@ func (*cfgDynamic).withValue :: d, err, opts, fn
+//@ props C07 C08
+//@ sweep
+//@ at-call (*cfgDynamic).getValue requires opts != nil && opts.activeFields != nil && opts.activeFields.parent == atentry(opts.activeFields) && forall k string :: !has(opts.activeFields.fields, k)
+
+//@ func (*cfgDynamic).withValue$1
+//@ props C08
+//@ requires deref(opts) != nil
+//@ modifies deref(opts).activeFields
+//@ ensures [restore] deref(opts).activeFields == deref(parentFields)
+
+//@ func castArr$1
+//@ props C08
+//@ requires deref(opts) != nil
+//@ modifies deref(opts).activeFields
+//@ ensures [restore] deref(opts).activeFields == deref(parentFields)
+
+// castArr looks at the value before its entries are unpacked: the look has a level of its own, and the value it has evaluated
+// is the one asked for its length (asking the reference again would evaluate it a second time in one level; only a reference
+// that evaluates to itself is asked again, and reports the cycle)
+//@ func castArr :: opts, v -> arr, err
+//@ props C07 C08
 //@ sweep
 //@ checks-pre (*context).path
 //@ rvwrites nothing
+//@ at-call (*cfgDynamic).getValue requires opts != nil && opts.activeFields != nil && opts.activeFields.parent == atentry(opts.activeFields) && forall k string :: !has(opts.activeFields.fields, k)
+//@ at-call iface:value.Len requires typeof(caller(v)) == *cfgDynamic && self == caller(v) ==> dynVal(caller(v).(*cfgDynamic)) == caller(v)
+//@ ensures [scope] opts.activeFields == old(opts.activeFields)
 
 //@ func parseValidatorTags :: tag -> tags, err
 //@ props C07 C04
